@@ -218,6 +218,8 @@ func (c Cell) String() string {
 		} else {
 			s = "u"
 		}
+	} else if c.Ready {
+		s += "+readyCondition"
 	}
 	if c.Term {
 		s += "t"
@@ -314,6 +316,9 @@ func BuildPod(set *asv1.StatefulSet, ord int, c Cell, revName string, tmpl int, 
 			st = v1.ConditionTrue
 		}
 		p.Status.Conditions = []v1.PodCondition{{Type: v1.PodReady, Status: st}}
+	} else if c.Ready {
+		// a Ready condition without the Running phase (valid for the API; some node agents report it): not Running
+		p.Status.Conditions = []v1.PodCondition{{Type: v1.PodReady, Status: v1.ConditionTrue}}
 	}
 	if c.Term {
 		ts := T0
@@ -375,6 +380,9 @@ type Scenario struct {
 	Far []int
 	// StaleStatus: counters zero and observedGeneration behind instead of a census
 	StaleStatus bool
+	// StatusAhead: the status was left by someone else (copied by helper.Upgrade, restored from a backup):
+	// observedGeneration is ahead of metadata.generation and the counters are not a census
+	StatusAhead bool
 	Collision   *int32
 }
 
@@ -389,6 +397,9 @@ func (sc Scenario) String() string {
 	}
 	if sc.StaleStatus {
 		s += " stale-status"
+	}
+	if sc.StatusAhead {
+		s += " status-of-another-writer(observedGeneration ahead)"
 	}
 	return s
 }
@@ -476,6 +487,9 @@ func (sc Scenario) Build(w *world.World) *world.State {
 	if sc.StaleStatus {
 		set.Generation = 2
 		set.Status.ObservedGeneration = 1
+	} else if sc.StatusAhead {
+		set.Generation = 1
+		set.Status.ObservedGeneration = 4
 	} else {
 		set.Status.ObservedGeneration = set.Generation
 		for _, ord := range ords {
